@@ -1,6 +1,7 @@
 package main
 
 import (
+	"strings"
 	"go/ast"
 	"fmt"
 	"go/token"
@@ -311,4 +312,94 @@ func everyCharRule(c *Ctx, rule, fname string) {
 		return true
 	})
 	c.Floor(rule, n, 1)
+}
+
+// regexConfigRule: compiled patterns are only ever matched with, never
+// reconfigured.
+func regexConfigRule(c *Ctx, rule string) {
+	p := c.P
+	c.Rule(rule, "no function of the package (initialisation excepted) calls (*regexp.Regexp).Longest: it is the one method of a compiled pattern that changes it in place and is documented as not safe for concurrent use; called on a package-level pattern (or a copy of the pointer) it changes, from then on and for every goroutine, where that pattern's matches end")
+	n := 0
+	var visit func(fn *ssa.Function)
+	visit = func(fn *ssa.Function) {
+		ord := 0
+		for _, b := range fn.Blocks {
+			for _, in := range b.Instrs {
+				call, ok := in.(*ssa.Call)
+				if !ok {
+					continue
+				}
+				cal := call.Call.StaticCallee()
+				if cal == nil || cal.Signature.Recv() == nil || p.TypeStr(cal.Signature.Recv().Type()) != "*regexp.Regexp" {
+					continue
+				}
+				ord++
+				n++
+				key := fmt.Sprintf("%s: Regexp.%s #%d", ssaFuncName(fn), cal.Name(), ord)
+				if cal.Name() == "Longest" {
+					c.Bad(rule, key, call.Pos(), "reconfigures a compiled pattern in place")
+				} else {
+					c.OK(rule, key, call.Pos(), "a read-only method")
+				}
+			}
+		}
+		for _, an := range fn.AnonFuncs {
+			visit(an)
+		}
+	}
+	for _, fn := range p.SrcFuncs() {
+		if isInitFunc(fn.Name()) {
+			continue
+		}
+		visit(fn)
+	}
+	c.Floor(rule, n, 3)
+}
+
+// allMatchesRule: every occurrence of a pattern is treated.
+func allMatchesRule(c *Ctx, rule, fname string) {
+	p := c.P
+	c.Rule(rule, fname+" applies each of its patterns to every occurrence in the text: the pattern is used through a FindAll*/ReplaceAll* method (with n = -1 where there is a count); a Find*/Replace first-match method redacts the first statement of `create user a with password 'x'; create user b with password 'y'` and leaves the second password in the log")
+	f := p.SSAFunc(p.Func(fname))
+	if f == nil {
+		c.Unk(rule, fname, 0, "anchor not found")
+		return
+	}
+	n := 0
+	for _, b := range f.Blocks {
+		for _, in := range b.Instrs {
+			call, ok := in.(*ssa.Call)
+			if !ok {
+				continue
+			}
+			cal := call.Call.StaticCallee()
+			if cal == nil || cal.Signature.Recv() == nil || p.TypeStr(cal.Signature.Recv().Type()) != "*regexp.Regexp" {
+				continue
+			}
+			name := cal.Name()
+			if !strings.HasPrefix(name, "Find") && !strings.HasPrefix(name, "Replace") && !strings.HasPrefix(name, "Match") {
+				continue
+			}
+			n++
+			key := fmt.Sprintf("%s: Regexp.%s #%d", fname, name, n)
+			switch {
+			case strings.HasPrefix(name, "FindAll"):
+				last := call.Call.Args[len(call.Call.Args)-1]
+				if k, ok := last.(*ssa.Const); ok && k.Value != nil && k.Value.ExactString() == "-1" {
+					c.OK(rule, key, call.Pos(), "all matches")
+				} else if ok && k.Value != nil {
+					c.Bad(rule, key, call.Pos(), "at most "+k.Value.ExactString()+" matches are treated")
+				} else {
+					c.Unk(rule, key, call.Pos(), "match count is not a constant")
+				}
+			case strings.HasPrefix(name, "ReplaceAll"):
+				c.OK(rule, key, call.Pos(), "all matches")
+			case strings.HasPrefix(name, "Match"):
+				c.OK(rule, key, call.Pos(), "a yes/no test")
+			default:
+				c.Bad(rule, key, call.Pos(), "only the first match is treated: later occurrences keep their password")
+			}
+		}
+	}
+	c.Floor(rule, n, 2)
 }
